@@ -130,7 +130,8 @@ Theorem C06_parser_unreachable_reached_off_lexer_streams :
     match parse cfg_tree (fuel_for ts) ts with RPanic _ => True | _ => False end.
 Proof. exists [TAtom]. vm_compute. split; [reflexivity | exact I]. Qed.
 
-(* THE LEXER HALF, by citation.  Model/Lexer.v (C08) is a byte-level port of the WHOLE of
+(* THE LEXER HALF, by citation (1-3) and by Proofs/LexerBoundary.v, LexerTokenCuts.v (4-6).
+   Model/Lexer.v (C08) is a byte-level port of the WHOLE of
    basic_tokenize: the Template state (delimiter tests, check_ws_start!, raw blocks through
    skip_tag / memstr, comments, text up to find_start_marker) and the Variable/Tag state
    (scan_inside: whitespace skipping, end-delimiter tests, and inner_token = spread, two- and
